@@ -35,6 +35,10 @@ rm -f $wt/$demodir/zz_seed_demo_test.go
 cat $log
 cd /repo && git status --short | grep -v '^??' && { echo "/repo not clean"; exit 3; }
 git -C /repo apply $S/patch.diff || { echo "patch does not apply to /repo"; exit 2; }
+# does the change still break the property on the current /repo (later fix: commits may have made it harmless)?
+cp $demo /repo/$demodir/zz_seed_demo_test.go
+(cd /repo/$demodir && go test -vet=off -count=1 -run 'Seed|seed|Demo|demo' . 2>&1 | tail -1 | sed 's/^/demo on current \/repo WITH change: /') | tee -a $log
+rm -f /repo/$demodir/zz_seed_demo_test.go
 for p in "$@"; do
   (cd /verif && timeout 1500 bin/jdvc check --property $p --tier quick > $S/check_$p.out 2>&1; echo "check $p exit=$?" | tee -a $log; grep -c '^VIOLATION' $S/check_$p.out | sed "s/^/  violations: /" | tee -a $log; grep '^VIOLATION\|^ENGINE' $S/check_$p.out | head -5 | cut -c1-260 | tee -a $log)
 done
